@@ -180,6 +180,8 @@ fn step_pg(c: &mut PgCase, ws: &[&str]) -> String {
         }
         ["reopen"] => {
             let path = c.dir.path().join("p.ndb");
+            // the page file is locked exclusively by its handle (C10 fix): release the old handle first
+            c.pager = Pager::open(c.dir.path().join("scratch.ndb")).expect("scratch pager");
             match Pager::open(&path) {
                 Ok(mut p) => match catch_unwind(AssertUnwindSafe(|| IdMap::load(&mut p))) {
                     Ok(Ok(m)) => {
